@@ -9,8 +9,11 @@ Model: `Build.build` (`DictBuilder`: ANY sequence of `read_conn` / `read_lexicon
 over the records the `csv` reader delivers and the lines of the matrix text, with the writer as a
 script executed against a sink that accepts `limit` bytes.  `Variant.current` is the code as it
 stood, `Variant.repaired` the behaviour after the repairs D1–D5 (DESIGN §2.7) and the repair of the
-builder's `resolved` flag (`Variant.rf`: `read_lexicon` clears it); `Variant.staleFlag` = D1–D5
-repaired, flag as the code has it.
+builder's `resolved` flag (`Variant.rf`: `read_lexicon` clears it) — the repairs that have landed;
+`Variant.staleFlag` = D1–D5 repaired, flag as the code has it; `Variant.full` = also the repairs
+N1 (no matrix read: limits 0), N3 (`read_conn` on a user builder keeps the system sizes), S4 (the
+matrix buffer is zeroed), S5 (the line buffer is cleared), S6 (the sizes follow the matrix buffer
+also when `read_conn` failed).  `Op.connIgn` is a `read_conn` whose `Err` the caller ignores.
 -/
 namespace C06
 open Build
@@ -205,50 +208,64 @@ theorem compile_total_partial (v : Variant) (x : Ext) (inp : Input) (limit : Opt
 
 /-! ## success ⇒ valid dictionary -/
 
-/-- what `build` guarantees on success, in terms of the sizes the ids were validated against:
-if `read_conn` was called (anywhere, any number of times) they are the sizes of the matrix that is
-written, otherwise those the builder started with -/
+/-- what `build` guarantees on success, in terms of the sizes the ids were validated against -/
 theorem build_ok_valid {v : Variant} {x : Ext} {inp : Input} {limit : Option Nat} {n cnt : Nat} {d : Dict}
     (h : build v x inp limit = .ok n cnt d) :
     IdsUpper d ∧ (v.d3 = true → RightNonneg d) ∧ RefsOk d ∧
-    ((∃ lines, Op.conn lines ∈ inp.ops) → d.maxLeft = d.conn.nl ∧ d.maxRight = d.conn.nr) ∧
-    ((∀ lines, Op.conn lines ∉ inp.ops) →
-      d.conn = Conn.empty ∧ d.maxLeft = inp.base.maxLeft ∧ d.maxRight = inp.base.maxRight) := by
+    (SizesFollowMatrix v inp → d.maxLeft = d.conn.nl ∧ d.maxRight = d.conn.nr) ∧
+    (SizesStay v inp → d.maxLeft = inp.base.initLeft v ∧ d.maxRight = inp.base.initRight v) ∧
+    ((∀ lines, Op.conn lines ∉ inp.ops ∧ Op.connIgn lines ∉ inp.ops) → d.conn = Conn.empty) := by
   obtain ⟨b, hp, hc⟩ := (build_ok_iff ..).1 h
   obtain ⟨h1, h2, h3⟩ := compile_ok_valid hc
   obtain ⟨_, _, _, hd⟩ := (compile_ok_iff ..).1 hc
-  obtain ⟨_, p2, p3⟩ := prepare_conn hp
-  refine ⟨h1, h2, h3, ?_, ?_⟩
-  · intro hl
-    have := p2 hl
+  obtain ⟨_, p2, p3, p4⟩ := prepare_conn hp
+  refine ⟨h1, h2, h3, ?_, ?_, ?_⟩
+  · rintro ⟨a1, a2, a3⟩
+    have := p2 a1 a2 a3
+    subst hd; exact this
+  · intro hk
+    have := p3 hk
     subst hd; exact this
   · intro hn
-    have := p3 hn
+    have := p4 hn
     subst hd; exact this
 
 /-- **compile_valid**, connection ids (full for the repaired right-id check, `v.d3`).  If the
-compilation of a dictionary whose matrix was read succeeds, every indexed entry's connection ids
-lie inside the matrix that is written. -/
+compilation succeeds and the ids were validated against the matrix that is written
+(`SizesFollowMatrix`: as the code stands that needs a `read_conn` and no ignored `Err`), every
+indexed entry's connection ids lie inside the matrix that is written. -/
 theorem compile_valid_ids (v : Variant) (x : Ext) (inp : Input) (limit : Option Nat) (n cnt : Nat) (d : Dict)
-    (h3 : v.d3 = true) (lines : List (Option Str)) (hconn : Op.conn lines ∈ inp.ops)
+    (h3 : v.d3 = true) (hconn : SizesFollowMatrix v inp)
     (h : build v x inp limit = .ok n cnt d) :
     ∀ e ∈ d.entries, e.shouldIndex = true →
       0 ≤ e.left ∧ e.left < d.conn.nl ∧ 0 ≤ e.right ∧ e.right < d.conn.nr := by
   obtain ⟨hu, hr, _, hm, _⟩ := build_ok_valid h
-  obtain ⟨m1, m2⟩ := hm ⟨lines, hconn⟩
+  obtain ⟨m1, m2⟩ := hm hconn
   intro e he hi
   have := hu e he
   refine ⟨by simpa [Entry.shouldIndex] using hi, by omega, hr h3 e he hi, by omega⟩
+
+/-- **compile_valid**, connection ids, with N1 and S6 repaired (full): for a SYSTEM dictionary
+there is no hypothesis about the calls any more — no `read_conn`, `read_conn` late or twice,
+`Err`s of `read_conn` ignored: whenever `compile` succeeds every indexed entry's connection ids
+lie inside the matrix that is written.  False as the code stands: `no_matrix_counterexample`
+(N1), `failed_read_conn_counterexample` (S6). -/
+theorem compile_valid_ids_repaired (v : Variant) (x : Ext) (inp : Input) (limit : Option Nat) (n cnt : Nat) (d : Dict)
+    (h3 : v.d3 = true) (hn1 : v.n1 = true) (hs6 : v.s6 = true) (hsys : inp.base.isUser = false)
+    (h : build v x inp limit = .ok n cnt d) :
+    ∀ e ∈ d.entries, e.shouldIndex = true →
+      0 ≤ e.left ∧ e.left < d.conn.nl ∧ 0 ≤ e.right ∧ e.right < d.conn.nr :=
+  compile_valid_ids v x inp limit n cnt d h3 ⟨Or.inr hsys, Or.inl hs6, Or.inl ⟨hn1, hsys⟩⟩ h
 
 /-- the same for the code as it stands, without the clause `0 ≤ right` (**partial**: the full
 statement is `compile_valid_ids`; it fails for `Variant.current`, see
 `compile_valid_counterexample_d3`) -/
 theorem compile_valid_ids_partial (v : Variant) (x : Ext) (inp : Input) (limit : Option Nat) (n cnt : Nat) (d : Dict)
-    (lines : List (Option Str)) (hconn : Op.conn lines ∈ inp.ops)
+    (hconn : SizesFollowMatrix v inp)
     (h : build v x inp limit = .ok n cnt d) :
     ∀ e ∈ d.entries, e.shouldIndex = true → 0 ≤ e.left ∧ e.left < d.conn.nl ∧ e.right < d.conn.nr := by
   obtain ⟨hu, _, _, hm, _⟩ := build_ok_valid h
-  obtain ⟨m1, m2⟩ := hm ⟨lines, hconn⟩
+  obtain ⟨m1, m2⟩ := hm hconn
   intro e he hi
   have := hu e he
   refine ⟨by simpa [Entry.shouldIndex] using hi, by omega, by omega⟩
@@ -266,17 +283,30 @@ theorem compile_valid_d3_repaired :
       = .err .compile .InvalidFieldSize 0 := by
   rfl
 
-/-- user dictionaries: ids are inside the system dictionary's matrix (sizes of `Base`) -/
+/-- user dictionaries: ids are inside the system dictionary's matrix (sizes of `Base`) — as the
+code stands when no `read_conn` was made on the user builder (`SizesStay`) -/
 theorem compile_valid_ids_user (v : Variant) (x : Ext) (inp : Input) (limit : Option Nat) (n cnt : Nat) (d : Dict)
-    (h3 : v.d3 = true) (hconn : ∀ lines, Op.conn lines ∉ inp.ops)
+    (h3 : v.d3 = true) (huser : inp.base.isUser = true) (hconn : SizesStay v inp)
     (h : build v x inp limit = .ok n cnt d) :
     ∀ e ∈ d.entries, e.shouldIndex = true →
       0 ≤ e.left ∧ e.left < inp.base.maxLeft ∧ 0 ≤ e.right ∧ e.right < inp.base.maxRight := by
-  obtain ⟨hu, hr, _, _, hm⟩ := build_ok_valid h
-  obtain ⟨_, m1, m2⟩ := hm hconn
+  obtain ⟨hu, hr, _, _, hm, _⟩ := build_ok_valid h
+  obtain ⟨m1, m2⟩ := hm hconn
+  simp only [Base.initLeft, Base.initRight, huser, ↓reduceIte] at m1 m2
   intro e he hi
   have := hu e he
   refine ⟨by simpa [Entry.shouldIndex] using hi, by omega, hr h3 e he hi, by omega⟩
+
+/-- user dictionaries with N3 repaired (full): whatever calls were made on the user builder —
+`read_conn` included, its `Err` ignored or not — a dictionary that compiles has the connection ids
+of its indexed entries inside the SYSTEM dictionary's matrix, the one the analyser connects user
+words through.  False as the code stands: `userdict_read_conn_counterexample`. -/
+theorem compile_valid_ids_user_repaired (v : Variant) (x : Ext) (inp : Input) (limit : Option Nat) (n cnt : Nat) (d : Dict)
+    (h3 : v.d3 = true) (hn3 : v.n3 = true) (huser : inp.base.isUser = true)
+    (h : build v x inp limit = .ok n cnt d) :
+    ∀ e ∈ d.entries, e.shouldIndex = true →
+      0 ≤ e.left ∧ e.left < inp.base.maxLeft ∧ 0 ≤ e.right ∧ e.right < inp.base.maxRight :=
+  compile_valid_ids_user v x inp limit n cnt d h3 huser (Or.inl ⟨hn3, huser⟩) h
 
 /-- **compile_valid**, references (full, every variant).  On success the dictionary form, every
 split unit and every word-structure item of every entry points to an existing entry, and no
@@ -296,19 +326,22 @@ theorem compile_valid_limits (v : Variant) (x : Ext) (inp : Input) (limit : Opti
   exact compile_ok_limits hc
 
 /-- **compile_valid** (full for the repaired right-id check): all clauses together for a dictionary
-whose matrix was read. -/
+whose ids were validated against the matrix that is written (as the code stands: a matrix was read
+and no `Err` of `read_conn` ignored; with N1 and S6 repaired: every system dictionary,
+`sizesFollow_repaired`). -/
 theorem compile_valid (v : Variant) (x : Ext) (inp : Input) (limit : Option Nat) (n cnt : Nat) (d : Dict)
-    (h3 : v.d3 = true) (lines : List (Option Str)) (hconn : Op.conn lines ∈ inp.ops)
+    (h3 : v.d3 = true) (hconn : SizesFollowMatrix v inp)
     (h : build v x inp limit = .ok n cnt d) :
     (∀ e ∈ d.entries, e.shouldIndex = true →
       0 ≤ e.left ∧ e.left < d.conn.nl ∧ 0 ≤ e.right ∧ e.right < d.conn.nr) ∧ RefsOk d ∧ LimitsOk d :=
-  ⟨compile_valid_ids v x inp limit n cnt d h3 lines hconn h, compile_valid_refs v x inp limit n cnt d h,
+  ⟨compile_valid_ids v x inp limit n cnt d h3 hconn h, compile_valid_refs v x inp limit n cnt d h,
    compile_valid_limits v x inp limit n cnt d h⟩
 
 /-- non-vacuity of `compile_valid`: the hypotheses hold for the two-word dictionary -/
-example : ∃ n d, Variant.repaired.d3 = true ∧ Op.conn m22 ∈ (input (some m22) [row ['あ'] ['0'] ['0'], row ['い'] ['1'] ['1']]).ops ∧
+example : ∃ n d, Variant.repaired.d3 = true ∧
+    SizesFollowMatrix Variant.repaired (input (some m22) [row ['あ'] ['0'] ['0'], row ['い'] ['1'] ['1']]) ∧
     build Variant.repaired x0 (input (some m22) [row ['あ'] ['0'] ['0'], row ['い'] ['1'] ['1']]) none = .ok n 0 d :=
-  ⟨_, _, rfl, List.mem_cons_self, rfl⟩
+  ⟨_, _, rfl, sizesFollow_pinned _ _ rfl m22 List.mem_cons_self (by intro l h; simp [input, part] at h), rfl⟩
 
 /-- … and for a lexicon read in two parts with a `resolve()` after each (the second part refers to
 the first by an inline split and by a word id) -/
@@ -323,10 +356,10 @@ def UseOk (d : Dict) : Prop :=
 
 /-- with a square matrix validated ids are usable ids -/
 theorem square_use_ok (v : Variant) (x : Ext) (inp : Input) (limit : Option Nat) (n cnt : Nat) (d : Dict)
-    (h3 : v.d3 = true) (lines : List (Option Str)) (hconn : Op.conn lines ∈ inp.ops)
+    (h3 : v.d3 = true) (hconn : SizesFollowMatrix v inp)
     (h : build v x inp limit = .ok n cnt d) (hsq : d.conn.nl = d.conn.nr) : UseOk d := by
   intro e he hi
-  have := compile_valid_ids v x inp limit n cnt d h3 lines hconn h e he hi
+  have := compile_valid_ids v x inp limit n cnt d h3 hconn h e he hi
   omega
 
 /-- D17: with the non-square matrix `3 1` the row `left_id = 2, right_id = 0` passes the
@@ -339,7 +372,8 @@ theorem nonsquare_use_counterexample :
   ⟨_, _, rfl, fun h => absurd (h _ List.mem_cons_self rfl).2.2.2 (by decide)⟩
 
 /-- N1: a system dictionary compiled without `read_conn` (the matrix is optional in the API)
-gets a 0×0 matrix while ids are checked against `i16::MAX`: every indexed entry is outside -/
+gets a 0×0 matrix while ids are checked against `i16::MAX`: every indexed entry is outside
+(`Variant.repaired` = the tree with the repairs that have landed) -/
 theorem no_matrix_counterexample :
     ∃ n d, build Variant.repaired x0 (input none [row ['あ'] ['0'] ['0']]) none = .ok n 0 d ∧
       d.conn = Conn.empty ∧ ∃ e ∈ d.entries, e.shouldIndex = true ∧ ¬ e.left < d.conn.nl :=
@@ -369,8 +403,161 @@ theorem userdict_read_conn_counterexample :
   ⟨_, _, rfl, _, List.mem_cons_self, rfl, by decide⟩
 
 /-- non-vacuity of `compile_valid_ids_user`: the usual pipeline without a matrix has no `read_conn` -/
-example : ∀ lines, Op.conn lines ∉ (input none [row ['あ'] ['0'] ['0']]).ops := by
-  intro lines h
-  simp [input, part] at h
+example : userBase.isUser = true ∧ SizesStay Variant.repaired { input none [row ['あ'] ['0'] ['0']] with base := userBase } := by
+  refine ⟨rfl, Or.inr ?_⟩
+  intro lines
+  constructor <;> (intro h; simp [input, part] at h)
+
+/-! ## N1, N3 repaired -/
+
+/-- N1 repaired: without a matrix no connection id is valid — the witness of
+`no_matrix_counterexample` is rejected by `validate_entries` -/
+theorem no_matrix_repaired :
+    build Variant.full x0 (input none [row ['あ'] ['0'] ['0']]) none = .err .compile .InvalidFieldSize 0 := by
+  rfl
+
+/-- N3 repaired: the row of `userdict_read_conn_counterexample` is rejected (as it is without the
+`read_conn`), the row with ids inside the system matrix still compiles -/
+theorem userdict_read_conn_repaired :
+    build Variant.full x0
+        { input (some [some ['9', ' ', '9', '\n']]) [row ['大', '阪'] ['5'] ['5']] with base := userBase } none
+      = .err .compile .InvalidFieldSize 0 ∧
+    ∃ n d, build Variant.full x0
+        { input (some [some ['9', ' ', '9', '\n']]) [row ['大', '阪'] ['1'] ['2']] with base := userBase } none
+      = .ok n 0 d :=
+  ⟨rfl, _, _, rfl⟩
+
+/-- non-vacuity of `compile_valid_ids_repaired` / `compile_valid_ids_user_repaired` -/
+example : Variant.full.d3 = true ∧ Variant.full.n1 = true ∧ Variant.full.s6 = true ∧ Variant.full.n3 = true ∧
+    Base.system.isUser = false ∧ userBase.isUser = true ∧
+    ∃ n d, build Variant.full x0 (input (some m22) [row ['あ'] ['0'] ['0'], row ['い'] ['1'] ['1']]) none = .ok n 0 d :=
+  ⟨rfl, rfl, rfl, rfl, rfl, rfl, _, _, rfl⟩
+
+/-! ## the matrix buffer between calls: S4 (stale cells), S5 (stale line), S6 (stale sizes) -/
+
+/-- the matrix text `2 2\n0 0 7\n1 1 9\n` -/
+def m22a : List (Option Str) :=
+  [some ['2', ' ', '2', '\n'], some ['0', ' ', '0', ' ', '7', '\n'], some ['1', ' ', '1', ' ', '9', '\n']]
+
+/-- calls, then one lexicon text and `resolve()` -/
+def inputOps (ops : List Op) (recs : List (List Str)) : Input :=
+  { base := Base.system, ops := ops ++ [part recs, .resolve], descLen := 5, trieLen := 1024 }
+
+/-- S4: `read_conn("2 2\n0 0 7\n1 1 9\n")` then `read_conn("2 2\n")` — the second text lists no
+cell, the matrix that is written still has the costs 7 and 9 of the first (`Vec::resize` keeps
+them) -/
+theorem stale_cells_counterexample :
+    ∃ n d, build Variant.repaired x0
+        (inputOps [.conn m22a, .conn [some ['2', ' ', '2', '\n']]] [row ['あ'] ['0'] ['0']]) none = .ok n 0 d ∧
+      d.conn.cell 0 = 7 ∧ d.conn.cell 3 = 9 ∧
+      (readConn Variant.repaired ConnBuf.new [some ['2', ' ', '2', '\n']]).1.conn.cell 0 = 0 :=
+  ⟨_, _, rfl, rfl, rfl, rfl⟩
+
+/-- S5, a retry fails: `read_conn("2 2\n0 0 x\n")` is an error (ignored by the caller), the
+CORRECT text `2 2\n0 0 1\n` read next is rejected too — its header is appended to the line the
+first call failed on — although a new builder accepts it -/
+theorem stale_line_counterexample_retry :
+    build Variant.repaired x0
+        (inputOps [.connIgn [some ['2', ' ', '2', '\n'], some ['0', ' ', '0', ' ', 'x', '\n']],
+                   .conn [some ['2', ' ', '2', '\n'], some ['0', ' ', '0', ' ', '1', '\n']]]
+          [row ['あ'] ['0'] ['0']]) none = .err .conn .InvalidI16Literal 1 ∧
+    ∃ n d, build Variant.repaired x0
+        (inputOps [.conn [some ['2', ' ', '2', '\n'], some ['0', ' ', '0', ' ', '1', '\n']]]
+          [row ['あ'] ['0'] ['0']]) none = .ok n 0 d :=
+  ⟨rfl, _, _, rfl⟩
+
+/-- S5, an invalid text is accepted: `read_conn("5 \n")` is an error (one number), then the text
+`7\n0 0 1\n`, which a new builder rejects, is read as a 5×7 matrix and a row with ids (4, 6)
+compiles -/
+theorem stale_line_counterexample_accepts :
+    (∃ n d, build Variant.repaired x0
+        (inputOps [.connIgn [some ['5', ' ', '\n']],
+                   .conn [some ['7', '\n'], some ['0', ' ', '0', ' ', '1', '\n']]]
+          [row ['あ'] ['4'] ['6']]) none = .ok n 0 d ∧ d.conn.nl = 5 ∧ d.conn.nr = 7) ∧
+    build Variant.repaired x0
+        (inputOps [.conn [some ['7', '\n'], some ['0', ' ', '0', ' ', '1', '\n']]]
+          [row ['あ'] ['4'] ['6']]) none = .err .conn .SplitFormatError 1 :=
+  ⟨⟨_, _, rfl, rfl, rfl⟩, rfl⟩
+
+/-- S6: `read_conn("3 3\n")`, then `read_conn("1 1\n0 0 x\n")` fails AFTER the buffer was resized to
+1×1 (the `Err` is ignored); the row with ids (2, 2) is validated against 3×3 and compiles into a
+dictionary whose matrix is 1×1 -/
+theorem failed_read_conn_counterexample :
+    ∃ n d, build Variant.repaired x0
+        (inputOps [.conn [some ['3', ' ', '3', '\n']],
+                   .connIgn [some ['1', ' ', '1', '\n'], some ['0', ' ', '0', ' ', 'x', '\n']]]
+          [row ['あ'] ['2'] ['2']]) none = .ok n 0 d ∧
+      d.conn.nl = 1 ∧ ∃ e ∈ d.entries, e.shouldIndex = true ∧ ¬ e.left < d.conn.nl :=
+  ⟨_, _, rfl, rfl, _, List.mem_cons_self, rfl, by decide⟩
+
+/-- the same inputs with S4, S5, S6 repaired: the second matrix is all zeros; the retry succeeds;
+the invalid text is rejected; the row outside the 1×1 matrix is rejected -/
+theorem stale_buffer_repaired :
+    (∃ n d, build Variant.full x0
+        (inputOps [.conn m22a, .conn [some ['2', ' ', '2', '\n']]] [row ['あ'] ['0'] ['0']]) none = .ok n 0 d ∧
+      d.conn.cells = []) ∧
+    (∃ n d, build Variant.full x0
+        (inputOps [.connIgn [some ['2', ' ', '2', '\n'], some ['0', ' ', '0', ' ', 'x', '\n']],
+                   .conn [some ['2', ' ', '2', '\n'], some ['0', ' ', '0', ' ', '1', '\n']]]
+          [row ['あ'] ['0'] ['0']]) none = .ok n 0 d) ∧
+    build Variant.full x0
+        (inputOps [.connIgn [some ['5', ' ', '\n']],
+                   .conn [some ['7', '\n'], some ['0', ' ', '0', ' ', '1', '\n']]]
+          [row ['あ'] ['4'] ['6']]) none = .err .conn .SplitFormatError 1 ∧
+    build Variant.full x0
+        (inputOps [.conn [some ['3', ' ', '3', '\n']],
+                   .connIgn [some ['1', ' ', '1', '\n'], some ['0', ' ', '0', ' ', 'x', '\n']]]
+          [row ['あ'] ['2'] ['2']]) none = .err .compile .InvalidFieldSize 0 :=
+  ⟨⟨_, _, rfl, rfl⟩, ⟨_, _, rfl⟩, rfl, rfl⟩
+
+/-- **read_conn is a function of the text** — S5 repaired (full for the result): whether
+`ConnBuffer::read` accepts a text, the error and line it rejects it with, the sizes of the matrix
+and what it leaves in the line buffer are those a new `ConnBuffer` gives, whatever earlier calls
+(failed or not) left behind.  False as the code stands: `stale_line_counterexample_retry`,
+`stale_line_counterexample_accepts`. -/
+theorem read_conn_result_fresh (v : Variant) (h5 : v.s5 = true) (buf : ConnBuf) (lines : List (Option Str)) :
+    (readConn v buf lines).2 = (readConn v ConnBuf.new lines).2 ∧
+    (readConn v buf lines).1.line = (readConn v ConnBuf.new lines).1.line ∧
+    ((readConn v buf lines).2 = .ok () →
+      (readConn v buf lines).1.conn.nl = (readConn v ConnBuf.new lines).1.conn.nl ∧
+      (readConn v buf lines).1.conn.nr = (readConn v ConnBuf.new lines).1.conn.nr ∧
+      (readConn v buf lines).1.conn.bytes = (readConn v ConnBuf.new lines).1.conn.bytes) :=
+  readConn_result_fresh h5 buf lines
+
+/-- … S4 and S5 repaired (full): and when it accepts the text, the whole buffer — sizes and every
+cell — is the one a new `ConnBuffer` holds after reading the same text.  False as the code
+stands: `stale_cells_counterexample`. -/
+theorem read_conn_fresh (v : Variant) (h4 : v.s4 = true) (h5 : v.s5 = true) (buf : ConnBuf) (lines : List (Option Str)) :
+    (readConn v buf lines).2 = (readConn v ConnBuf.new lines).2 ∧
+    ((readConn v buf lines).2 = .ok () → (readConn v buf lines).1 = (readConn v ConnBuf.new lines).1) :=
+  readConn_fresh h4 h5 buf lines
+
+/-- **the matrix that is written is the matrix of the last text** (S4, S5 repaired; full): if the
+calls are `… read_conn(text)? …` with no `read_conn` after it and `compile` succeeds, the matrix
+of the dictionary (sizes and every cell) is what a new `ConnBuffer` holds after reading `text` —
+nothing of earlier texts, accepted or rejected, is left in it.  False as the code stands:
+`stale_cells_counterexample`, `stale_line_counterexample_accepts`. -/
+theorem compile_matrix_is_last_text (v : Variant) (x : Ext) (inp : Input) (limit : Option Nat) (n cnt : Nat) (d : Dict)
+    (h4 : v.s4 = true) (h5 : v.s5 = true) (pre post : List Op) (lines : List (Option Str))
+    (hops : inp.ops = pre ++ Op.conn lines :: post)
+    (hpost : ∀ l, Op.conn l ∉ post ∧ Op.connIgn l ∉ post)
+    (h : build v x inp limit = .ok n cnt d) :
+    (readConn v ConnBuf.new lines).2 = .ok () ∧ d.conn = (readConn v ConnBuf.new lines).1.conn := by
+  obtain ⟨b, hp, hc⟩ := (build_ok_iff ..).1 h
+  obtain ⟨_, _, _, hd⟩ := (compile_ok_iff ..).1 hc
+  obtain ⟨buf, hok, hb⟩ := prepare_last_conn hp hops (noConn_of_not_mem hpost)
+  obtain ⟨f1, f2⟩ := readConn_fresh h4 h5 buf lines
+  refine ⟨f1 ▸ hok, ?_⟩
+  subst hd
+  simp only
+  rw [hb, f2 hok]
+
+/-- non-vacuity of `compile_matrix_is_last_text`: the witness of `stale_cells_counterexample` has
+the shape and compiles -/
+example : ∃ n d, build Variant.full x0
+      (inputOps [.conn m22a, .conn [some ['2', ' ', '2', '\n']]] [row ['あ'] ['0'] ['0']]) none = .ok n 0 d ∧
+    (inputOps [.conn m22a, .conn [some ['2', ' ', '2', '\n']]] [row ['あ'] ['0'] ['0']]).ops
+      = [.conn m22a] ++ Op.conn [some ['2', ' ', '2', '\n']] :: [part [row ['あ'] ['0'] ['0']], .resolve] :=
+  ⟨_, _, rfl, rfl⟩
 
 end C06
